@@ -424,9 +424,12 @@ func (c *Config) UnmarshalYAML(unmarshal func(any) error) error {
 				ec.ForceImplicitTLS = c.Global.SMTPForceImplicitTLS
 			}
 		}
-		for _, sc := range rcv.SlackConfigs {
+		for i, sc := range rcv.SlackConfigs {
 			if sc == nil {
+				// A null entry is completed from the global settings like an
+				// empty one; store it, so that nothing later meets a nil config.
 				sc = &SlackConfig{}
+				rcv.SlackConfigs[i] = sc
 			}
 			sc.AppURL = cmp.Or(sc.AppURL, c.Global.SlackAppURL)
 			if sc.AppURL == nil {
@@ -483,9 +486,10 @@ func (c *Config) UnmarshalYAML(unmarshal func(any) error) error {
 			}
 			iio.HTTPConfig = cmp.Or(iio.HTTPConfig, c.Global.HTTPConfig)
 		}
-		for _, ogc := range rcv.OpsGenieConfigs {
+		for i, ogc := range rcv.OpsGenieConfigs {
 			if ogc == nil {
 				ogc = &opsgenie.OpsGenieConfig{}
+				rcv.OpsGenieConfigs[i] = ogc
 			}
 			ogc.HTTPConfig = cmp.Or(ogc.HTTPConfig, c.Global.HTTPConfig)
 			ogc.APIURL = cmp.Or(ogc.APIURL, c.Global.OpsGenieAPIURL)
@@ -501,9 +505,10 @@ func (c *Config) UnmarshalYAML(unmarshal func(any) error) error {
 				return errors.New("no global OpsGenie API Key set either inline or in a file")
 			}
 		}
-		for _, wcc := range rcv.WechatConfigs {
+		for i, wcc := range rcv.WechatConfigs {
 			if wcc == nil {
 				wcc = &WechatConfig{}
+				rcv.WechatConfigs[i] = wcc
 			}
 			wcc.HTTPConfig = cmp.Or(wcc.HTTPConfig, c.Global.HTTPConfig)
 			wcc.APIURL = cmp.Or(wcc.APIURL, c.Global.WeChatAPIURL)
@@ -623,9 +628,10 @@ func (c *Config) UnmarshalYAML(unmarshal func(any) error) error {
 				return errors.New("no global Jira Cloud URL set")
 			}
 		}
-		for _, rocketchatcfg := range rcv.RocketchatConfigs {
+		for i, rocketchatcfg := range rcv.RocketchatConfigs {
 			if rocketchatcfg == nil {
 				rocketchatcfg = &rocketchat.RocketchatConfig{}
+				rcv.RocketchatConfigs[i] = rocketchatcfg
 			}
 			rocketchatcfg.HTTPConfig = cmp.Or(rocketchatcfg.HTTPConfig, c.Global.HTTPConfig)
 			rocketchatcfg.APIURL = cmp.Or(rocketchatcfg.APIURL, c.Global.RocketchatAPIURL)
